@@ -23,8 +23,13 @@ where
             "JPEG header size {header_size} is greater than {MAX_JPEG_HEADER}, that might cause crashes of some tools.",
         );
     }
-    // There is two additional bytes that are not covered by the header size
-    let header = reader.read_bytes((header_size + 2) as usize)?;
+    // There is two additional bytes that are not covered by the header size.
+    // The field comes from the file: the sum is formed in usize so that a value near
+    // u32::MAX is rejected by the length check instead of overflowing
+    let header_len = (header_size as usize)
+        .checked_add(2)
+        .ok_or(Error::UnexpectedEof)?;
+    let header = reader.read_bytes(header_len)?;
     let mut images = vec![];
 
     match blp_header.mipmap_locator {
